@@ -23,22 +23,22 @@ def known_rules(prop):
 # Scenario families per property: (family, quick count, thorough count).  Every property has
 # families in which no recorded finding can fire (n <= q, no late queueing, no fault) next to
 # the ones in which the findings live.
-SAFE = [("base", 150, 3000), ("pop", 60, 1500), ("queue", 60, 1500), ("stop", 60, 1500), ("stoppop", 80, 1500), ("manual", 40, 800), ("none", 30, 500), ("narrow", 60, 1000)]
+SAFE = [("base", 150, 3000), ("pop", 60, 1500), ("queue", 60, 1500), ("stop", 60, 1500), ("stoppop", 80, 1500), ("manual", 40, 800), ("none", 30, 500), ("narrow", 60, 1000), ("overtall", 30, 500), ("uwg", 30, 500)]
 FIND = [("nq", 60, 1200), ("latequeue", 40, 800), ("fault", 60, 1200), ("latefault", 40, 800)]
 
 SCHED_PLANS = {
     "C01": SAFE + FIND + [("delay", 40, 800)],
     "C02": SAFE + FIND,
-    "C03": [("base", 200, 4000), ("tall", 30, 400), ("tail", 150, 3000), ("pop", 80, 1500), ("queue", 60, 1500), ("nq", 40, 800)],
+    "C03": [("base", 200, 4000), ("uwg", 60, 1000), ("tall", 30, 400), ("tail", 150, 3000), ("pop", 80, 1500), ("queue", 60, 1500), ("nq", 40, 800)],
     "C05": [("delay", 40, 800), ("fault", 100, 2000), ("base", 200, 4000), ("pop", 80, 1500), ("queue", 80, 1500), ("stop", 40, 1000), ("nq", 60, 1200)],
     "C06": [("prio", 150, 3000), ("base", 250, 5000), ("pop", 100, 2000), ("queue", 80, 1500), ("stop", 40, 800)],
-    "C11": SAFE,
+    "C11": SAFE + [("fault", 80, 1500)],
     "C12": [("narrow", 80, 1500), ("base", 250, 5000), ("pop", 60, 1000), ("queue", 60, 1000), ("stop", 40, 800), ("nq", 40, 800)],
     "C13": [("base", 250, 5000), ("tail", 150, 3000), ("pop", 60, 1000), ("stop", 60, 1500), ("manual", 40, 800)],
     "C14": [("stop", 250, 5000), ("stoppop", 80, 1500), ("stop@free", 150, 3000), ("base@free", 50, 1000), ("manual", 60, 1000), ("none", 60, 1000), ("base", 60, 1000)],
     "C15": [("fault", 250, 5000), ("latefault", 80, 1500), ("base", 40, 500)],
     "C16": SAFE + FIND,
-    "C17": [("queue", 250, 5000), ("manualqueue", 100, 2000), ("latequeue", 80, 1500), ("pop", 40, 800)],
+    "C17": [("queue", 250, 5000), ("overtall", 60, 1000), ("manualqueue", 100, 2000), ("latequeue", 80, 1500), ("pop", 40, 800)],
     "C18": [("pop", 300, 6000), ("tall", 40, 600), ("base", 60, 1000)],
 }
 
@@ -182,6 +182,16 @@ def sched_part(prop, tier, seed, extra_cov=None, extra_assume=None, tlc_runs=())
 
 def replay(path):
     d = json.load(open(path))
+    if d.get("kind") == "barseq":
+        from . import barstate
+        return barstate.replay(d)
+    if d.get("how"):
+        from . import fillpart
+        return fillpart.replay_row(d)
+    if "history" in d:
+        return replay_lin(d)
+    if "frame" in d:
+        return replay_term(d)
     sc = d["scenario"]
     wd = core.workdir("replay")
     try:
@@ -192,6 +202,60 @@ def replay(path):
             print("BROKEN", b)
         print("replayed %s: %d broken rules (recorded: %s)" % (sc["id"], len(bad), d.get("rule")))
         return 1 if any(d["property"] in b["p"].split(",") for b in bad) else 0
+    finally:
+        shutil.rmtree(wd, ignore_errors=True)
+
+
+def replay_lin(d):
+    """A free-running history cannot be repeated exactly: the program is run 20 times and every history is judged."""
+    from . import lin
+    wd = core.workdir("replay")
+    try:
+        binary = core.build_harness(wd)
+        scs = []
+        for i in range(20):
+            sc = json.loads(json.dumps(d["scenario"]))
+            sc["id"] = "%s-r%d" % (d["scenario"]["id"], i)
+            sc["sched"]["seed"] = sc["sched"].get("seed", 1) + i
+            scs.append(sc)
+        traces = core.run_scenarios(binary, wd, scs, chunk=5)
+        hs = lin.histories(traces, {s["id"]: s for s in scs})
+        failed = lin.judge_histories(hs, wd)[0]
+        bad, _, _, _ = core.run_obs(traces, wd)
+        for t in failed:
+            print("BROKEN not-linearizable", t)
+        for b in bad:
+            print("BROKEN", b)
+        print("replayed %s 20 times: %d histories not linearizable, %d broken monitor rules" % (d["scenario"]["id"], len(failed), len(bad)))
+        return 1 if failed or any("C10" in b["p"].split(",") for b in bad) else 0
+    finally:
+        shutil.rmtree(wd, ignore_errors=True)
+
+
+def replay_term(d):
+    """Runs the scenario (gate-scheduled on a buffer, or a pty program) again and interprets its frames with TermTrace.tla."""
+    import subprocess
+    from . import term
+    wd = core.workdir("replay")
+    try:
+        binary = core.build_harness(wd)
+        sc = d["scenario"]
+        if "steps" in sc and "clients" not in sc:      # a pty program
+            inp, outp = os.path.join(wd, "pty.in"), os.path.join(wd, "pty.out")
+            open(inp, "w").write(json.dumps(sc) + "\n")
+            p = subprocess.run([binary, "-test.run", "^TestPty$", "-test.timeout", "0"], env=dict(os.environ, VH_IN=inp, VH_OUT=outp),
+                               capture_output=True, text=True, timeout=600)
+            pevs = [json.loads(l) for l in open(outp)] if os.path.exists(outp) else []
+            if not pevs or not pevs[-1].get("done"):
+                raise core.Infra("pty driver did not finish: " + (p.stdout + p.stderr)[-1000:])
+            bad, _, _ = term.run_termtrace(pevs[:-1], wd, "pty")
+        else:
+            traces = core.run_scenarios(binary, wd, [sc], jobs=1)
+            bad, _, _ = term.run_termtrace(term.term_events(traces, {sc["id"]: sc}), wd, "buf")
+        for b in bad:
+            print("BROKEN", b)
+        print("replayed %s: %d broken screen rules (recorded: %s)" % (sc["id"], len(bad), d.get("rule")))
+        return 1 if bad else 0
     finally:
         shutil.rmtree(wd, ignore_errors=True)
 
@@ -249,6 +313,17 @@ def proxy_part(prop, tier, seed):
 
 
 PARTS["C19"] = [proxy_part]
+
+
+def api_part(prop, tier, seed):
+    from . import fillpart
+    return fillpart.table(prop, tier, seed, "Api.tla", "Api.cfg", "Api.cfg", "TestApiCases", "API",
+                          "every place where the library accepts a nil value (filler, typed-nil filler func, builder, extender, decorators, "
+                          "middleware, options, output, debug output, notifier, refresh channel, predecessor, delay channel) x refresh mode, "
+                          "enumerated by TLC from Api.tla; each case runs the same small program in a process of its own (a panic in a library "
+                          "goroutine cannot be recovered)",
+                          "unusual-argument-breaks-the-program",
+                          ["which nil values are valid is read from the guards and comments of the library's option functions"])
 
 
 def decor_part(prop, tier, seed):
@@ -469,6 +544,7 @@ def core_part(prop, tier, seed):
 for _p in CORE_CFGS:
     PARTS[_p] = PARTS.get(_p, []) + [core_part]
 PARTS["C04"] = [term_part, sched_part]
+PARTS["C02"] = PARTS["C02"] + [api_part]
 PARTS["C18"] = [sched_part, term_part]
 PARTS["C07"] = [fill_part]
 PARTS["C08"] = [fill_part]
